@@ -170,7 +170,7 @@ class ArffLineReader(Filter[str, Sequence[str]]):
         self._quotechar      = None
 
         #only used when parsing sparse lines
-        self._r_sparse  = re.compile(r'''\s*(-?\d+)\s+('(?:[^'\\]|\\.)*'|"(?:[^"\\]|\\.)*"|[^\s,]+)\s*,?''')
+        self._r_sparse  = re.compile(r'''\s*(-?\d+)\s+('(?:[^'\\]|\\.)*'|"(?:[^"\\]|\\.)*"|[^\s,]+)\s*,?''', re.ASCII)
         self._r_unquote = re.compile(r"\\(.)")
 
         if self._is_dense:
